@@ -234,23 +234,23 @@ func c20Units(ctx *core.Ctx) []core.Unit {
 	}
 	for n := 0; n <= 5; n++ {
 		for m := 1; m <= 4; m++ {
-			us = append(us, schedUnit(n, m, "dpor", explore.Options{DataBudget: -1}))
+			us = append(us, schedUnit(n, m, "dpor", explore.Options{DataBudget: -1, Deadline: schedDeadline(ctx)}))
 		}
 	}
 	for _, nm := range [][2]int{{1, 1}, {2, 2}, {3, 2}, {5, 2}} {
-		us = append(us, schedUnit(nm[0], nm[1], "naive", explore.Options{}))
+		us = append(us, schedUnit(nm[0], nm[1], "naive", explore.Options{Deadline: schedDeadline(ctx)}))
 	}
 	bd := 1
 	if ctx.Thorough() {
 		bd = 2
 	}
 	for _, nm := range [][2]int{{7, 3}, {16, 16}, {17, 16}} {
-		us = append(us, schedUnit(nm[0], nm[1], "bounded", explore.Options{MaxBound: bd}))
+		us = append(us, schedUnit(nm[0], nm[1], "bounded", explore.Options{MaxBound: bd, Deadline: schedDeadline(ctx)}))
 	}
 	if ctx.Thorough() {
-		us = append(us, schedUnit(3, 3, "naive", explore.Options{}))
-		us = append(us, schedUnit(9, 5, "dpor", explore.Options{DataBudget: -1}))
-		us = append(us, schedUnit(64, 16, "dpor", explore.Options{DataBudget: -1}))
+		us = append(us, schedUnit(3, 3, "naive", explore.Options{Deadline: schedDeadline(ctx)}))
+		us = append(us, schedUnit(9, 5, "dpor", explore.Options{DataBudget: -1, Deadline: schedDeadline(ctx)}))
+		us = append(us, schedUnit(64, 16, "dpor", explore.Options{DataBudget: -1, Deadline: schedDeadline(ctx)}))
 	}
 	return us
 }
